@@ -278,6 +278,7 @@ func (f *FnVC) block(b *ssa.BasicBlock) {
 	} else {
 		f.st = in.child()
 	}
+	hintAfter := f.hintPoints(b)
 	for _, ins := range b.Instrs {
 		if phi, ok := ins.(*ssa.Phi); ok {
 			if li == nil {
@@ -292,6 +293,10 @@ func (f *FnVC) block(b *ssa.BasicBlock) {
 			continue
 		}
 		f.instr(ins)
+		for _, h := range hintAfter[ins] {
+			env := f.pointEnv(ins)
+			f.oblige("hint", "at \""+h.Where+"\" assert "+h.C.Text, f.trBool(env, h.C.E), ins.Pos())
+		}
 	}
 	f.out[b.Index] = f.st
 	// back edges out of this block
@@ -1356,4 +1361,109 @@ func (f *FnVC) allocTouchedIn(a *ssa.Alloc, li *loopInfo) bool {
 		return false
 	}
 	return visit(a, 0)
+}
+
+// hintPoints: for each hint of the contract, the last instruction of block b whose source line contains the text.
+func (f *FnVC) hintPoints(b *ssa.BasicBlock) map[ssa.Instruction][]HintClause {
+	out := map[ssa.Instruction][]HintClause{}
+	if f.c == nil || len(f.c.Hints) == 0 {
+		return out
+	}
+	for _, h := range f.c.Hints {
+		var last ssa.Instruction
+		for _, ins := range b.Instrs {
+			if _, isDbg := ins.(*ssa.DebugRef); isDbg {
+				continue
+			}
+			if !ins.Pos().IsValid() {
+				continue
+			}
+			if strings.Contains(f.g.sourceLine(ins.Pos()), h.Where) {
+				last = ins
+			}
+		}
+		if last != nil {
+			out[last] = append(out[last], h)
+		}
+	}
+	return out
+}
+
+// pointEnv: names of source variables as they stand right after instruction ins.
+func (f *FnVC) pointEnv(at ssa.Instruction) *Env {
+	env := f.baseEnv()
+	env.st = f.st
+	env.old = f.root
+	env.oldVars = f.paramTV
+	names := map[string]ssa.Value{}
+	addrs := map[string]ssa.Value{}
+	scan := func(b *ssa.BasicBlock, upto ssa.Instruction) {
+		started := upto == nil
+		for i := len(b.Instrs) - 1; i >= 0; i-- {
+			in := b.Instrs[i]
+			if !started {
+				if in == upto {
+					started = true
+				} else {
+					// DebugRefs directly following `upto` describe its result (e.g. the assignment target)
+					if d, ok := in.(*ssa.DebugRef); ok && d.X == upto.(ssa.Value) {
+						goto use
+					}
+					continue
+				}
+			}
+		use:
+			switch x := in.(type) {
+			case *ssa.DebugRef:
+				obj := x.Object()
+				if obj == nil {
+					continue
+				}
+				if _, isVar := obj.(*types.Var); !isVar {
+					continue
+				}
+				n := obj.Name()
+				if x.IsAddr {
+					if _, ok := addrs[n]; !ok {
+						if _, ok2 := names[n]; !ok2 {
+							addrs[n] = x.X
+						}
+					}
+				} else if _, ok := names[n]; !ok {
+					if _, ok2 := addrs[n]; !ok2 {
+						names[n] = x.X
+					}
+				}
+			case *ssa.Phi:
+				if x.Comment != "" {
+					if _, ok := names[x.Comment]; !ok {
+						names[x.Comment] = x
+					}
+				}
+			}
+		}
+	}
+	if _, isVal := at.(ssa.Value); isVal {
+		scan(at.Block(), at)
+	} else {
+		scan(at.Block(), nil)
+	}
+	for b := at.Block().Idom(); b != nil; b = b.Idom() {
+		scan(b, nil)
+	}
+	fvl := f.freeVarLazy()
+	env.lazy = func(name string, s *State) (TV, bool) {
+		if v, ok := names[name]; ok {
+			return f.val(v), true
+		}
+		if a, ok := addrs[name]; ok {
+			loc := f.resolveLoc(a)
+			return f.tv(f.loadLoc(loc, s), loc.ty), true
+		}
+		if tv, ok := f.paramTV[name]; ok {
+			return tv, true
+		}
+		return fvl(name, s)
+	}
+	return env
 }
